@@ -94,6 +94,15 @@ func HarnessC01Lookup(st any) {
 		p0 = collectParams(c0)
 		c0.Close()
 	}
+	// (twice more first: whichever pooled context the runtime hands out next has then served this request before)
+	for k := 0; k < 2; k++ {
+		rk, ck, tk := s.r.Lookup(nil, req)
+		sym.Assert(r0 == rk && t0 == tk, "the same request gives the same answer on a recycled context")
+		if ck != nil {
+			sym.Assert(c0 != nil && sameParams(p0, collectParams(ck)), "the same request gives the same parameters on a recycled context")
+			ck.Close()
+		}
+	}
 	rte, cc, tsr := s.r.Lookup(nil, req)
 	sym.Assert(r0 == rte && t0 == tsr, "the same request gives the same answer on a recycled context")
 	if cc != nil && c0 != nil {
